@@ -108,6 +108,14 @@ class Proc(object):
         self.fixed = list(spec.get("implicit", []))      # [(lean name, type)] extra leading parameters (opaque operations)
 
     # ---------------------------------------------------------------------------------------------------------------- helpers
+    def check_module_import(self, mod, name):
+        """the source file imports `name` from `mod` at module level"""
+        tree = ast.parse(self.src)
+        for st in tree.body:
+            if isinstance(st, ast.ImportFrom) and st.module == mod and any(a.name == name and a.asname is None for a in st.names):
+                return
+        raise Untranslatable("%s is not imported from %s at module level" % (name, mod))
+
     def proc_key(self, fname):
         """(file, function name) a called name stands for: the same source file, or the file and original name it is imported from (spec["imports"], checked
         against the module's import statements in gen_logic)"""
@@ -221,6 +229,12 @@ class Proc(object):
             if p is not None and not p.get("implicit") and not any(n.startswith("self") for n, _ in p["params"]):
                 # a translated module-level function used as a value (handed to another function)
                 return (p["name"], ("Fun", [t for _, t in p["params"]], p["ret"]))
+            g = self.spec.get("globals", {}).get(e.id)
+            if g is not None:
+                # a module-level name imported from another module, declared an opaque operation: (module the source imports it from, implicit parameter)
+                mod, lean = g
+                self.check_module_import(mod, e.id)
+                return (lean, dict(self.fixed)[lean])
             raise Untranslatable("free name %s" % e.id)
         if isinstance(e, ast.Attribute):
             return self.attribute(e, env)
@@ -310,6 +324,10 @@ class Proc(object):
             if e.attr in fields:
                 f, fty = fields[e.attr]
                 return ("%s.%s" % (base, f), fty)
+        if isinstance(bty, tuple) and bty[0] == "Rec" and (bty[1], e.attr) in self.spec.get("attr_ops", {}):
+            # an attribute holding another opaque object: a declared operation (spec["attr_ops"]: (record, attribute) -> (implicit parameter, type))
+            op, oty = self.spec["attr_ops"][(bty[1], e.attr)]
+            return ("(%s %s)" % (op, base), oty)
         if isinstance(bty, tuple) and bty[0] == "Opt":
             raise Untranslatable("attribute %s of a value that may be None" % k)
         raise Untranslatable("attribute %s" % k)
@@ -678,11 +696,32 @@ class Proc(object):
                 and isinstance(env.vars[f.value.id][1], tuple) and env.vars[f.value.id][1][0] == "ODict":
             d, dty = env.vars[f.value.id]
             return ("(%s.map fun e => e.2)" % d, ("List", dty[2]))
+        if isinstance(f, ast.Attribute) and f.attr == "values" and not e.args and self.seg(f.value) in env.vars \
+                and isinstance(env.vars[self.seg(f.value)][1], tuple) and env.vars[self.seg(f.value)][1][0] in ("ODict", "AssocL"):
+            d, dty = env.vars[self.seg(f.value)]
+            return ("(%s.map fun e => e.2)" % d, ("List", dty[2]))
+        if self.seg(f) == "itertools.permutations" and len(e.args) == 2 and isinstance(e.args[1], ast.Constant) and e.args[1].value == 2:
+            # all ordered pairs of items at different positions, in itertools' order (first position outermost)
+            t, ty = self.expr(e.args[0], env)
+            if isinstance(ty, tuple) and ty[0] == "List":
+                return ("(orderedPairs %s)" % t, ("List", ("Prod", ty[1], ty[1])))
         if isinstance(f, ast.Attribute) and f.attr in ("split", "rsplit") and len(e.args) == 2 and isinstance(e.args[0], ast.Constant) and isinstance(e.args[0].value, str) \
                 and len(e.args[0].value) == 1 and isinstance(e.args[1], ast.Constant) and e.args[1].value == 1:
             t, ty = self.expr(f.value, env)
             if ty == "Str":
                 return ("(%s %s '%s')" % ("pySplitFirst" if f.attr == "split" else "pyRSplitLast", t, e.args[0].value), ("List", "Str"))
+        if fname == "enumerate" and len(e.args) == 1:
+            t, ty = self.expr(e.args[0], env)
+            if isinstance(ty, tuple) and ty[0] == "List":
+                return ("((List.range %s.length).zip %s)" % (t, t), ("List", ("Prod", "Nat", ty[1])))
+        if self.seg(f) == "functools.reduce" and len(e.args) == 2:
+            # functools.reduce(f, xs) without an initial value: the left fold from the first item; Python raises TypeError on an empty sequence (the declared error)
+            ft, fty = self.expr(e.args[0], env)
+            xt, xty = self.expr(e.args[1], env)
+            if isinstance(fty, tuple) and fty[0] == "Fun" and isinstance(xty, tuple) and xty[0] == "List" and fty[1] == [xty[1], xty[1]] and fty[2] == xty[1] \
+                    and self.spec.get("reduce_error") and self.ret[0] == "Except":
+                return ("(match %s with | [] => (.error %s) | x0 :: rest0 => (.ok (rest0.foldl %s x0)))" % (xt, self.spec["reduce_error"], ft), ("Except", self.ret[1], xty[1]))
+            raise Untranslatable("functools.reduce on %s" % (xty,))
         if fname == "set" and len(e.args) == 1:
             a0 = e.args[0]
             if isinstance(a0, ast.Call) and isinstance(a0.func, ast.Attribute) and a0.func.attr == "keys" and not a0.args:
@@ -942,6 +981,16 @@ class Proc(object):
                 key = self.coerce(*self.expr(f.value.args[0], env), dty[1])
                 val = self.coerce(*self.expr(c.args[0], env), dty[2])
                 return (d.id, "(multiAppend %s %s %s)" % (dt, key, val), dty, False)
+        # a method called for its effect on ANOTHER object reached through an alias (a loop variable): the call is recorded, receiver and argument, in a log variable
+        # (spec["effect_log"]: method name -> log variable); what the method does to the receiver is outside the function
+        if isinstance(f, ast.Attribute) and f.attr in self.spec.get("effect_log", {}) and len(c.args) == 1 and not c.keywords:
+            logv = self.spec["effect_log"][f.attr]
+            lt, lty = env.vars[logv]
+            rt, rty = self.expr(f.value, env)
+            at, aty = self.expr(c.args[0], env)
+            if lty != ("List", ("Prod", rty, aty)):
+                raise Untranslatable("effect log %s : %s for %s.%s(%s)" % (logv, lty, rty, f.attr, aty))
+            return (logv, "(%s ++ [(%s, %s)])" % (lt, rt, at), lty, False)
         # a method that changes the object it is called on, declared as an operation returning the new object:  cp.remove_option(s, k)
         if isinstance(f, ast.Attribute) and isinstance(f.value, ast.Name) and f.value.id in env.vars and not c.keywords:
             xt, xty = env.vars[f.value.id]
@@ -1103,6 +1152,13 @@ class Proc(object):
             if isinstance(s, ast.Expr) and isinstance(s.value, ast.Call) and isinstance(s.value.func, ast.Attribute) and isinstance(s.value.func.value, ast.Name) \
                     and s.value.func.value.id == "logger" and s.value.func.attr in ("info", "warning", "debug"):
                 return self.block(rest, env, k)
+        if isinstance(s, ast.ImportFrom) and all(a.asname is None and (s.module, a.name) in self.spec.get("local_imports", {}) for a in s.names):
+            # `from m import f` inside the function: f is the declared opaque operation from here on
+            en = env
+            for a in s.names:
+                lean = self.spec["local_imports"][(s.module, a.name)]
+                en = en.bind(a.name, lean, dict(self.fixed)[lean])
+            return self.block(rest, en, k)
         if isinstance(s, ast.Pass):
             return self.block(rest, env, k)
         if isinstance(s, ast.Return):
@@ -1547,7 +1603,7 @@ class Proc(object):
         declared = self.spec["params"]
         if args and args[0] in ("self", "cls") and not any(n == "self" for n, _ in declared):
             args = args[1:]
-        if [n for n, _ in declared if not n.startswith("self.")] != args:
+        if [n for n, _ in declared if not n.startswith("self.") and n not in self.spec.get("effect_log", {}).values()] != args:
             raise Untranslatable("signature is (%s), expected (%s)" % (", ".join(args), ", ".join(n for n, _ in declared)))
         sig = "".join(" (%s : %s)" % (n, lty(t)) for n, t in self.fixed)
         for n, t in declared:
@@ -1812,6 +1868,24 @@ PROCS = [
          ret=("Except", "BuildErr", ("List", ("Rec", "EamRec"))), records=dict(EAM_REC, **EB_REC),
          implicit=[("mkFn", ("Fun", [("Rec", "Pfi")], ("Rec", "FnRec"))), ("setOrder", ("Fun", [("List", "Str")], ("List", "Str")))] + REF_OPS,
          raises=[("species defined for density function do not match those for embedding functions", "BuildErr.speciesMismatch")], locals={"potlist": ("List", ("Rec", "EamRec"))}),
+    # ---- C09: the modifiers that fold a combinator over their arguments
+    dict(name="modifier_reduce", file="_modifiers.py", func="_modifier_from_func_reduce", drop_logging=True, reduce_error="ModErr.noArguments",
+         params=[("logger_name", "Str"), ("func", ("Fun", [("Rec", "FnObj2"), ("Rec", "FnObj2")], ("Rec", "FnObj2"))), ("potential_forms", ("List", ("Rec", "Pfi"))), ("potential_form_builder", "Unit")],
+         ret=("Except", "ModErr", ("Rec", "FnObj2")), records={"FnObj2": {}, "Pfi": {}}, implicit=[("mkCallable", ("Fun", [("Rec", "Pfi")], ("Rec", "FnObj2")))],
+         seg_ops={"potential_form_builder.create_potential_function": ("mkCallable", [("Rec", "Pfi")], ("Rec", "FnObj2"))}, locals={"pot_callables": ("List", ("Rec", "FnObj2"))}),
+    dict(name="modifier_sum", file="_modifiers.py", func="sum", params=[("potential_forms", ("List", ("Rec", "Pfi"))), ("potential_form_builder", "Unit")],
+         ret=("Except", "ModErr", ("Rec", "FnObj2")), records={"FnObj2": {}, "Pfi": {}}, globals={"plus": ("atsim.potentials", "plusOp")},
+         implicit=[("mkCallable", ("Fun", [("Rec", "Pfi")], ("Rec", "FnObj2"))), ("plusOp", ("Fun", [("Rec", "FnObj2"), ("Rec", "FnObj2")], ("Rec", "FnObj2")))]),
+    dict(name="modifier_product", file="_modifiers.py", func="product", params=[("potential_forms", ("List", ("Rec", "Pfi"))), ("potential_form_builder", "Unit")],
+         ret=("Except", "ModErr", ("Rec", "FnObj2")), records={"FnObj2": {}, "Pfi": {}}, local_imports={("atsim.potentials", "product"): "productOp"},
+         implicit=[("mkCallable", ("Fun", [("Rec", "Pfi")], ("Rec", "FnObj2"))), ("productOp", ("Fun", [("Rec", "FnObj2"), ("Rec", "FnObj2")], ("Rec", "FnObj2")))]),
+    dict(name="modifier_pow", file="_modifiers.py", func="pow", params=[("potential_forms", ("List", ("Rec", "Pfi"))), ("potential_form_builder", "Unit")],
+         ret=("Except", "ModErr", ("Rec", "FnObj2")), records={"FnObj2": {}, "Pfi": {}}, local_imports={("atsim.potentials", "pow"): "powOp"},
+         implicit=[("mkCallable", ("Fun", [("Rec", "Pfi")], ("Rec", "FnObj2"))), ("powOp", ("Fun", [("Rec", "FnObj2"), ("Rec", "FnObj2")], ("Rec", "FnObj2")))]),
+    dict(name="register_with_each_other", file="config/_potential_form_registry.py", func="Potential_Form_Registry._register_with_each_other", inout="regs",
+         params=[("self._potential_forms", ("AssocL", "Str", ("Rec", "FormObj"))), ("regs", ("List", ("Prod", ("Rec", "FuncObj"), ("Rec", "FuncObj"))))],
+         ret=("List", ("Prod", ("Rec", "FuncObj"), ("Rec", "FuncObj"))), records=REG_REC, effect_log={"register_function": "regs"},
+         implicit=[("funcOf", ("Fun", [("Rec", "FormObj")], ("Rec", "FuncObj")))], attr_ops={("FormObj", "potential_function"): ("funcOf", ("Rec", "FuncObj"))}),
     # ---- C13: species filter
     dict(name="check_tuple", file="config/_filtered_config_parser.py", func="FilteredConfigParser._check_tuple",
          params=[("self._self_species_list", ("List", "Str")), ("self._self_exclude_flag", "Bool"), ("check_tuple", ("List", "Str"))], ret="Bool"),
@@ -2227,6 +2301,21 @@ def setSymDiff {α : Type} [BEq α] (a b : List α) : List α := setDiff a b ++ 
 /-- `d.setdefault(k, v)` -/
 def odictSetDefault {κ β : Type} [BEq κ] (d : List (κ × β)) (k : κ) (v : β) : List (κ × β) :=
   if d.any (fun e => e.1 == k) then d else d ++ [(k, v)]
+
+/-- a potential callable as the modifiers handle it: opaque -/
+structure FnObj2 where
+  id : Nat
+deriving Repr, DecidableEq
+inductive ModErr where
+  | noArguments
+deriving DecidableEq, Repr
+
+/-- `itertools.permutations(xs, 2)`: the ordered pairs of items at two different positions, first position outermost, both in the list's order -/
+def orderedPairs {α : Type} (xs : List α) : List (α × α) :=
+  (List.range xs.length).flatMap fun i => (List.range xs.length).filterMap fun j =>
+    if i = j then none else match xs[i]?, xs[j]? with
+      | some a, some b => some (a, b)
+      | _, _ => none
 
 inductive SigErr where
   | sameVariable
